@@ -5,6 +5,7 @@ Function-level theorems about `Model/Station.lean`, for every input and every ap
 import ProfiVerif.Model.Station
 import ProfiVerif.Lemmas.StationTrace
 import ProfiVerif.Lemmas.AppOrder
+import ProfiVerif.Lemmas.AppVisit
 
 namespace PV.C15
 open PV
@@ -734,5 +735,199 @@ theorem visit_end_not_since_last_send :
     refine ⟨w', [.transmit 0 false .decline], [.timeout 1 9, .transmit 1 false .decline, .transmit 2 false .decline],
       _, _, by rw [he.1]; rfl, ?_, (by intro hp ans h; simp at h), by decide⟩
     rintro (⟨d, fcd, h⟩ | ⟨a, d, h⟩) <;> rw [he.2.2] at h <;> cases h
+
+
+/-! ## Fairness within one token visit (`no_double_decline`, `visit_ends_fair`)
+
+Helper lemmas: `Lemmas/AppVisit.lean` (`VTurn`, `askFresh`, `cyc`, `poll_turn`).  The TRUE rules of
+`apps_transmit_telegram` / `schedule_next_application` / `do_use_token` are per token VISIT, because
+`first_app` lives in the visit's `UseTokenData` and survives sent telegrams:
+
+* an application that declined is not asked again in the same visit AT ALL — not even after another
+  application sent in between (stronger than the expected rule);
+* the token hold is ended by `do_use_token` only if the hold time is over, or there are no applications,
+  or EVERY application has declined exactly once in this visit (not "since the last sent telegram":
+  refuted by `visit_end_not_since_last_send`). -/
+
+/-- Visit invariant: the station is inside a token visit whose `first_app` / `next_application`
+bookkeeping matches the list `D` of applications that declined in this visit so far. -/
+def VInv (n : Nat) (s : Station) (D : List Nat) : Prop :=
+  ∃ d, visitData s = some d ∧ VTurn n d.firstApp s.nextApp D
+
+/-- The token hold continues over a call that made the callbacks `l`: afterwards the station is in
+`UseToken` with `first_cycle_done`, or in `AwaitDataResponse`, or nothing happened at all. -/
+def Continues (w w' : World) (l : List AppCall) : Prop :=
+  (∃ d, w'.s.st = .useToken d true) ∨ (∃ a d, w'.s.st = .awaitData a d) ∨ (w'.s.st = w.s.st ∧ l = [])
+
+/-- Why `do_use_token` may end a token hold at time `now`, `Dl` being the applications that declined in
+the visit (this poll included). -/
+def EndReason (w : World) (now : Int) (Dl : List Nat) : Prop :=
+  (∃ d, visitData w.s = some d ∧ ¬ now < (holdUpdate w.s d).endTokenHoldTime) ∨ w.apps.length = 0 ∨
+  (∃ f, f < w.apps.length ∧ Dl = cyc w.apps.length f w.apps.length)
+
+/-- One poll inside a visit. -/
+theorem visit_step (w w' : World) (now : Int) (phy : Bool) (arr : Bytes) (l : List AppCall) (D : List Nat)
+    (hi : VInv w.apps.length w.s D) (hs : w.stepLog (.poll now phy arr) = some (w', l)) :
+    askFresh D l ∧ w'.apps.length = w.apps.length ∧
+    (Continues w w' l → VInv w'.apps.length w'.s (D ++ declinesOf l)) ∧
+    (¬ Continues w w' l → w'.s.st = .activeIdle none none 0 ∨ EndReason w now (D ++ declinesOf l)) := by
+  obtain ⟨d, hd, hv⟩ := hi
+  simp only [World.stepLog] at hs
+  split at hs
+  · rename_i c hc
+    cases hs
+    have hlen := (poll_frame _ _ _ _ _ _ hc).2
+    obtain ⟨new, hcalls, hf, hcase⟩ := poll_turn _ _ _ _ _ _ d D hd hv hc
+    simp only [List.nil_append] at hcalls
+    rw [hcalls]
+    refine ⟨hf, hlen, ?_, ?_⟩
+    · intro hcont
+      show VInv c.apps.length c.s (D ++ declinesOf new)
+      rw [hlen]
+      rcases hcase with ⟨h1, h2, h3⟩ | ⟨d', hs', hv'⟩ | h1 | ⟨hp, -⟩
+      · subst h1
+        refine ⟨d, ?_, by simpa [declinesOf, h3] using hv⟩
+        simp only at h2
+        unfold visitData at hd ⊢; rw [h2]; exact hd
+      · refine ⟨d', ?_, hv'⟩
+        rcases hs' with h | ⟨a, h⟩ <;> (unfold visitData; rw [h])
+      · exfalso
+        rcases hcont with ⟨d', h⟩ | ⟨a, d', h⟩ | ⟨h, -⟩
+        · simp only at h; rw [h1] at h; cases h
+        · simp only at h; rw [h1] at h; cases h
+        · simp only at h
+          rcases visitData_cases hd with ⟨fcd, h'⟩ | ⟨a, h'⟩ <;> rw [h1, h'] at h <;> cases h
+      · rcases hcont with ⟨d', h⟩ | ⟨a, d', h⟩ | ⟨h, hl⟩
+        · exfalso; simp only at h
+          rcases hp with h' | ⟨a, h'⟩ | h' | h' <;> rw [h'] at h <;> cases h
+        · exfalso; simp only at h
+          rcases hp with h' | ⟨a', h'⟩ | h' | h' <;> rw [h'] at h <;> cases h
+        · simp only at h
+          subst hl
+          rcases hp with h' | ⟨a, h'⟩ | h' | h'
+          · exfalso; rcases visitData_cases hd with ⟨fcd, h''⟩ | ⟨a, h''⟩ <;> rw [h', h''] at h <;> cases h
+          · exfalso; rcases visitData_cases hd with ⟨fcd, h''⟩ | ⟨a', h''⟩ <;> rw [h', h''] at h <;> cases h
+          · have hd' : visitData c.s = some d := by unfold visitData at hd ⊢; rw [h]; exact hd
+            have hdn : d = ⟨now, none⟩ := by
+              unfold visitData at hd'; rw [h'] at hd'; simp at hd'; exact hd'.symm
+            subst hdn
+            have hD : D = [] := hv
+            subst hD
+            exact ⟨_, hd', rfl⟩
+          · exfalso; rcases visitData_cases hd with ⟨fcd, h''⟩ | ⟨a', h''⟩ <;> rw [h', h''] at h <;> cases h
+    · intro hnc
+      rcases hcase with ⟨h1, h2, h3⟩ | ⟨d', hs', hv'⟩ | h1 | ⟨hp, hr⟩
+      · exact absurd (.inr (.inr ⟨h2, h1⟩)) hnc
+      · exfalso
+        rcases hs' with h | ⟨a, h⟩
+        · exact hnc (.inl ⟨d', h⟩)
+        · exact hnc (.inr (.inl ⟨a, d', h⟩))
+      · exact .inl h1
+      · right
+        rcases hr with h | h | h
+        · exact .inl ⟨d, hd, h⟩
+        · exact .inr (.inl h)
+        · exact .inr (.inr h)
+  · cases hs
+
+/-- A call sequence during which the token hold continues: polls only, each of them `Continues`. -/
+def HoldRun : World → List ApiCall → Prop
+  | _, [] => True
+  | w, a :: rest => (∃ now phy arr, a = .poll now phy arr) ∧
+      ∀ w1 l, w.stepLog a = some (w1, l) → Continues w w1 l ∧ HoldRun w1 rest
+
+/-- The visit invariant along a whole run of polls inside one token visit. -/
+theorem visit_run : ∀ (calls : List ApiCall) (w w' : World) (log : List AppCall) (D : List Nat),
+    VInv w.apps.length w.s D → HoldRun w calls → w.runLog calls = some (w', log) →
+    askFresh D log ∧ w'.apps.length = w.apps.length ∧ VInv w'.apps.length w'.s (D ++ declinesOf log) := by
+  intro calls
+  induction calls with
+  | nil => intro w w' log D hi _ h; cases h; exact ⟨trivial, rfl, by simpa [declinesOf] using hi⟩
+  | cons a rest ih =>
+    intro w w' log D hi hrun h
+    obtain ⟨⟨now, phy, arr, ha⟩, hrest⟩ := hrun
+    subst ha
+    simp only [World.runLog] at h
+    split at h
+    · rename_i w1 l1 hs1
+      split at h
+      · rename_i w2 l2 hr2
+        cases h
+        obtain ⟨hcont, hrun1⟩ := hrest w1 l1 hs1
+        obtain ⟨hf1, hl1, hinv1, -⟩ := visit_step w w1 now phy arr l1 D hi hs1
+        obtain ⟨hf2, hl2, hinv2⟩ := ih w1 w' l2 _ (hinv1 hcont) hrun1 hr2
+        refine ⟨askFresh_append _ _ _ hf1 hf2, hl2.trans hl1, ?_⟩
+        simpa [declinesOf_append] using hinv2
+      · cases h
+    · cases h
+
+/-- **`no_double_decline`** (one whole token visit, any polls / bytes / times / scripts).  From the start
+of a visit (`first_app = None`, as after every token receipt / claim) and as long as the token hold
+continues: an application that declined is not asked again in this visit — whether or not another
+application sent a telegram in between — and in particular nobody declines twice. -/
+theorem no_double_decline (calls : List ApiCall) (w w' : World) (log : List AppCall) (d : UseData)
+    (hd : visitData w.s = some d) (hfirst : d.firstApp = none) (hrun : HoldRun w calls)
+    (hr : w.runLog calls = some (w', log)) :
+    (∀ pre i hp post, log = pre ++ .transmit i hp .decline :: post → ∀ hp' ans, AppCall.transmit i hp' ans ∉ post) ∧
+    (declinesOf log).Nodup := by
+  have hi : VInv w.apps.length w.s [] := ⟨d, hd, by rw [hfirst]; rfl⟩
+  obtain ⟨hf, -, d', -, hv⟩ := visit_run calls w w' log [] hi hrun hr
+  refine ⟨fun pre i hp post he => askFresh_decline pre [] log post i hp hf he, ?_⟩
+  simpa using vturn_nodup hv
+
+/-- **`visit_ends_fair`** (one whole token visit).  From the start of a visit, after any polls during
+which the hold continued, a poll that does NOT continue the hold either backs off to `ActiveIdle` (an
+inadmissible telegram arrived instead of the awaited reply — the token is not passed), or the hold time
+is over (`now ≥ end_token_hold_time` as `do_use_token` computes it), or there are no applications, or
+every application has declined in this visit — each exactly once. -/
+theorem visit_ends_fair (calls : List ApiCall) (w w1 w2 : World) (log l : List AppCall) (d : UseData)
+    (now : Int) (phy : Bool) (arr : Bytes)
+    (hd : visitData w.s = some d) (hfirst : d.firstApp = none) (hrun : HoldRun w calls)
+    (hr : w.runLog calls = some (w1, log)) (hs : w1.stepLog (.poll now phy arr) = some (w2, l))
+    (hend : ¬ Continues w1 w2 l) :
+    w2.s.st = .activeIdle none none 0 ∨
+    (∃ d1, visitData w1.s = some d1 ∧ ¬ now < (holdUpdate w1.s d1).endTokenHoldTime) ∨
+    w.apps.length = 0 ∨
+    ((∀ i, i < w.apps.length → i ∈ declinesOf (log ++ l)) ∧ (declinesOf (log ++ l)).Nodup) := by
+  have hi : VInv w.apps.length w.s [] := ⟨d, hd, by rw [hfirst]; rfl⟩
+  obtain ⟨-, hlen, hinv⟩ := visit_run calls w w1 log [] hi hrun hr
+  obtain ⟨-, -, -, hfin⟩ := visit_step w1 w2 now phy arr l _ hinv hs
+  rcases hfin hend with h | h | h | ⟨f, hf, he⟩
+  · exact .inl h
+  · exact .inr (.inl h)
+  · exact .inr (.inr (.inl (by rw [← hlen]; exact h)))
+  · right; right; right
+    rw [hlen] at hf he
+    simp only [List.nil_append] at he
+    rw [declinesOf_append, he]
+    exact ⟨fun i hi => cyc_full _ f i hf hi, cyc_nodup _ f hf _ (Nat.le_refl _)⟩
+
+/-- `no_double_decline` / `visit_ends_fair` for every history from a fresh station (lifted with the C05
+invariant): after ANY call sequence `pre`, any further calls `calls` and one more call `a` do not panic;
+and if `pre` ended at the start of a token visit and the hold continued during `calls` (polls), the
+visit's log `log` obeys `no_double_decline`, and if `a` is a poll that ends the hold, it does so for one
+of the four reasons of `visit_ends_fair`. -/
+theorem visit_trace (p : Params) (apps : Apps) (h1 : p.address < p.hsa) (h2 : p.hsa ≤ 126)
+    (hs : ScriptsOk apps) (pre calls : List ApiCall) (a : ApiCall) :
+    ∃ w w1 log w2 l, World.run { s := Station.new p, apps := apps, rx := [] } pre = some w ∧
+      w.runLog calls = some (w1, log) ∧ w1.stepLog a = some (w2, l) ∧
+      (∀ d, visitData w.s = some d → d.firstApp = none → HoldRun w calls →
+        ((∀ pre' i hp post, log = pre' ++ .transmit i hp .decline :: post → ∀ hp' ans, AppCall.transmit i hp' ans ∉ post) ∧
+         (declinesOf log).Nodup) ∧
+        (∀ now phy arr, a = .poll now phy arr → ¬ Continues w1 w2 l →
+          w2.s.st = .activeIdle none none 0 ∨
+          (∃ d1, visitData w1.s = some d1 ∧ ¬ now < (holdUpdate w1.s d1).endTokenHoldTime) ∨
+          w.apps.length = 0 ∨
+          ((∀ i, i < w.apps.length → i ∈ declinesOf (log ++ l)) ∧ (declinesOf (log ++ l)).Nodup))) := by
+  obtain ⟨w, hw, hi⟩ := poll_never_panics p apps h1 h2 hs pre
+  obtain ⟨w1, log, hr, hi1⟩ := runLog_total calls w hi
+  obtain ⟨w2, hw2, -, -⟩ := inv_step w1 a hi1
+  obtain ⟨l, hl⟩ := stepLog_of_step hw2
+  refine ⟨w, w1, log, w2, l, hw, hr, hl, ?_⟩
+  intro d hd hfirst hrun
+  refine ⟨no_double_decline calls w w1 log d hd hfirst hrun hr, ?_⟩
+  intro now phy arr ha hend
+  subst ha
+  exact visit_ends_fair calls w w1 w2 log l d now phy arr hd hfirst hrun hr hl hend
 
 end PV.C15
